@@ -51,26 +51,22 @@ def build_go(log, cmds=None):
         t = time.time()
         pk = ["./cmd/..."] if cmds is None else [f"./cmd/{c}" if c.startswith("extract") else f"./cmd/drive_{c}" for c in cmds]
         os.makedirs(os.path.join(HARNESS, "bin"), exist_ok=True)
-        rc, out = sh(["go", "build", "-tags", "verif", "-o", os.path.join(HARNESS, "bin") + "/"] + pk,
+        extra = os.environ.get("VERIF_GOBUILD_EXTRA", "").split()     # e.g. -cover -coverpkg=… for bin/coverage
+        rc, out = sh(["go", "build", "-tags", "verif"] + extra + ["-o", os.path.join(HARNESS, "bin") + "/"] + pk,
                      cwd=HARNESS, env=goenv(), timeout=900)
         log(f"go build rc={rc} {time.time()-t:.1f}s")
         return rc, out
 
-def extract_facts(log):
-    """regenerate lean/GmqttVerif/Generated/Facts.lean from /repo (deleted first)."""
-    dst = os.path.join(LEAN, "GmqttVerif", "Generated", "Facts.lean")
-    tmp = dst + ".new"
-    rc, out = sh([EXTRACT, "-repo", REPO, "-out", tmp], timeout=120)
-    if rc != 0:
-        return rc, out
-    new = open(tmp).read()
-    old = open(dst).read() if os.path.exists(dst) else None
-    if new != old:
-        os.replace(tmp, dst)       # only touch when changed so lake stays incremental
-        log("Generated/Facts.lean changed")
-    else:
-        os.remove(tmp)
-    return 0, out
+def extract_facts(log, sections):
+    """regenerate lean/GmqttVerif/Generated/<Section>.lean for the given sections from /repo. A section that cannot be
+    read removes its module (so the theorems over it stop building) and makes this return non-zero."""
+    with Lock("lean"):
+        rc, out = sh([EXTRACT, "-repo", REPO, "-outdir", os.path.join(LEAN, "GmqttVerif", "Generated"),
+                      "-sections", ",".join(sections)], timeout=180)
+    for l in out.split("\n"):
+        if l.startswith("changed "):
+            log("Generated/%s.lean changed" % l.split()[1])
+    return rc, out
 
 def build_lean(targets, log):
     with Lock("lean"):
@@ -532,10 +528,10 @@ class Run:
 def standard_run(r, mod):
     """mod provides: MODULE, THEOREMS, COMPS, streams(tier)->[(Stream, n)], RULE, ASSUME; optional RECOGNISERS, extra(r)."""
     r.recognisers.update(getattr(mod, "RECOGNISERS", {}))
-    if getattr(mod, "NEEDS_FACTS", False):
+    if getattr(mod, "NEEDS_FACTS", None):
         rc, out = build_go(r.log, ["extract"])
         if rc == 0:
-            rc, out = extract_facts(r.log)
+            rc, out = extract_facts(r.log, mod.NEEDS_FACTS)
         if rc != 0:
             r.violation("extract", "# fact extractor failed on /repo: the regenerated tie no longer checks\n" + out[-3000:], False,
                         "extractor failed")
